@@ -1,6 +1,7 @@
 import LentilVerif.Lemmas.Spectrum
 import LentilVerif.Lemmas.Units
 import LentilVerif.Lemmas.SpecArith
+import LentilVerif.Lemmas.SpecScale
 /-! C13 — spectrum arithmetic is pointwise, commutative, unit-agnostic. Statements about `Model/SpecArith.lean`
 (tied to `Spectrum._ufunc` / `_interp_common` by the correspondence), for every binary operator `op`. -/
 namespace Lentil.C13
@@ -48,6 +49,25 @@ theorem operand_outside (s : Spectrum) (lo hi tol fill g : ℚ) (h : g < lo - to
     simp [operandAt, this]
   · have : ¬ g ≤ hi + tol := not_le.mpr h
     simp [operandAt, this]
+
+/-- "the result is a new *spectrum*": the common grid is a valid wavelength grid (positive, strictly increasing — the
+`Spectrum` constructor cannot refuse it) and carries one value per wavelength -/
+theorem ufunc_result_valid (op : ℚ → ℚ → ℚ) (s1 s2 : Spectrum) (m : Sampling) (fill : ℚ) (r : Spectrum)
+    (h : ufunc op s1 s2 m fill = .ok r) (lo1 hi1 lo2 hi2 dw : ℚ)
+    (h1 : minL s1.wave = some lo1) (h2 : maxL s1.wave = some hi1) (h3 : minL s2.wave = some lo2) (h4 : maxL s2.wave = some hi2)
+    (hs : samplingOf m s1.wave s2.wave = some dw) (hdw : 0 < dw) (hpos : 0 < min lo1 lo2)
+    (hspan : gridTol dw < max hi1 hi2 - min lo1 lo2) :
+    validWave r.wave = true ∧ r.wave.length = r.value.length := by
+  obtain ⟨a1, b1, a2, b2, d, e1, e2, e3, e4, e5, hw, hv⟩ := ufunc_pointwise op s1 s2 m fill r h
+  rw [h1] at e1; rw [h2] at e2; rw [h3] at e3; rw [h4] at e4; rw [hs] at e5
+  cases e1; cases e2; cases e3; cases e4; cases e5
+  have hN := gridNum_pos _ _ _ hdw hspan
+  constructor
+  · rw [hw, commonGrid_eq _ _ _ (by omega)]
+    have htol : 0 ≤ gridTol dw := by rw [gridTol_eq]; exact div_nonneg (le_of_lt hdw) (by norm_num)
+    exact linspace_valid _ _ _ hpos (by linarith) (by omega)
+  · rw [hv]; simp
+
 
 /-- the operands seen from a grid point, against the *mathematical* interpolant (`IsLinInterp`, defined in
 Lemmas/SpecArith.lean by the segment formula, without reference to the model's `seg`/`interpAt`/`operandAt`): inside the
@@ -111,11 +131,7 @@ theorem grid_step_le_requested (mn mx dw : ℚ) (hdw : 0 < dw) (hN : 1 ≤ (grid
 /-- the size of the common grid does not depend on the unit the wavelengths are expressed in: scaling both ends and the
 sampling by k > 0 leaves the number of intervals unchanged (so no absolute cap or tolerance can enter) -/
 theorem grid_size_scale_invariant (mn mx dw k : ℚ) (hk : 0 < k) (hdw : dw ≠ 0) :
-    gridNum (mn * k) (mx * k) (dw * k) = gridNum mn mx dw := by
-  rw [gridNum_eq, gridNum_eq, gridTol_eq, gridTol_eq]
-  congr 1
-  have hk' : k ≠ 0 := ne_of_gt hk
-  field_simp
+    gridNum (mn * k) (mx * k) (dw * k) = gridNum mn mx dw := gridNum_scale mn mx dw k hk hdw
 
 /-- the grid starts at the smaller of the two minima, has `ceil((max−min−tol)/Δ)+1` points … -/
 theorem grid_spans_union_start (mn mx dw : ℚ) (h0 : 0 ≤ gridNum mn mx dw) :
@@ -169,6 +185,49 @@ theorem add_comm (s1 s2 : Spectrum) (m : Sampling) (fill : ℚ) :
 theorem mul_comm (s1 s2 : Spectrum) (m : Sampling) (fill : ℚ) :
     ufunc (· * ·) s2 s1 m.swap fill = ufunc (· * ·) s1 s2 m fill := op_comm _ (fun a b => _root_.mul_comm a b) s1 s2 m fill
 
+/-- unit invariance of spectrum arithmetic, core statement: expressing both operands' wavelengths (and a numeric sampling)
+in another unit — a factor k > 0 — rescales the result's grid by k and leaves its values unchanged, for every operator -/
+theorem ufunc_scale (op : ℚ → ℚ → ℚ) (k : ℚ) (hk : 0 < k) (s1 s2 : Spectrum) (m : Sampling) (fill : ℚ)
+    (hdw : ∀ dw, samplingOf m s1.wave s2.wave = some dw → dw ≠ 0) :
+    ufunc op (scaleS k s1) (scaleS k s2) (m.scale k) fill = (ufunc op s1 s2 m fill).map (scaleS k) := by
+  simp only [ufunc, interpCommon_scale k hk s1 s2 m fill hdw]
+  cases interpCommon s1 s2 m fill with
+  | error e => rfl
+  | ok r => obtain ⟨g, v1, v2⟩ := r; rfl
+
+
+/-- unit invariance for unitless spectra at the level the driver runs (`ufuncU`, each operand in its own wavelength unit):
+re-expressing BOTH operands in any unit `u` (a numeric sampling re-expressed with them) gives the same result re-expressed
+in `u` — same values, grid rescaled by the unit factor. (For density spectra a numeric fill value is a number per the left
+operand's unit, so the clause is claimed for fill 0 only — see ASSUMPTIONS — and is checked by the oracle.) -/
+theorem unit_invariance_unitless (op : ℚ → ℚ → ℚ) (s1 s2 : USpec) (h1 : s1.vu = none) (h2 : s2.vu = none) (u : WUnit)
+    (m : Sampling) (fill : ℚ)
+    (hdw : ∀ dw, samplingOf m s1.wave (if s2.wu = s1.wu then s2 else toWave s1.wu s2).wave = some dw → dw ≠ 0) :
+    ufuncU op (toWave u s1) (toWave u s2) (m.scale (waveTo s1.wu u)) fill = (ufuncU op s1 s2 m fill).map (toWave u) := by
+  have hk := waveTo_pos s1.wu u
+  -- the right operand as the operation sees it, before and after re-expressing
+  have hs2 : ∀ t : USpec, t.vu = none → ∀ a : WUnit, (toWave a t).wave = t.wave.map (· * waveTo t.wu a) ∧ (toWave a t).value = t.value
+      ∧ (toWave a t).wu = a ∧ (toWave a t).vu = none := by
+    intro t ht a; simp [toWave_eq, ht]
+  obtain ⟨w1, v1, _, _⟩ := hs2 s1 h1 u
+  set s2' := (if s2.wu = s1.wu then s2 else toWave s1.wu s2) with hs2'
+  have hs2'w : s2'.wave = s2.wave.map (· * waveTo s2.wu s1.wu) ∧ s2'.value = s2.value := by
+    by_cases h : s2.wu = s1.wu
+    · simp only [hs2', h, if_true]; rw [← h, waveTo_self]; simp
+    · simp only [hs2', h, if_false]; exact ⟨(hs2 s2 h2 s1.wu).1, (hs2 s2 h2 s1.wu).2.1⟩
+  -- after re-expressing both in u the two units coincide, so no further conversion happens
+  have e2 : (if (toWave u s2).wu = (toWave u s1).wu then toWave u s2 else toWave (toWave u s1).wu (toWave u s2)) = toWave u s2 := by
+    simp [(hs2 s1 h1 u).2.2.1, (hs2 s2 h2 u).2.2.1]
+  have hwave2 : (toWave u s2).wave = s2'.wave.map (· * waveTo s1.wu u) := by
+    rw [(hs2 s2 h2 u).1, hs2'w.1, map_mul_mul, waveTo_cocycle]
+  simp only [ufuncU, e2]
+  have key := ufunc_scale op (waveTo s1.wu u) hk ⟨s1.wave, s1.value⟩ ⟨s2'.wave, s2'.value⟩ m fill hdw
+  simp only [scaleS] at key
+  rw [w1, v1, hwave2, (hs2 s2 h2 u).2.1, ← hs2'w.2, key]
+  cases ufunc op ⟨s1.wave, s1.value⟩ ⟨s2'.wave, s2'.value⟩ m fill with
+  | error e => rfl
+  | ok r => simp [Except.map, toWave_eq, h1, (hs2 s1 h1 u).2.2.1, (hs2 s1 h1 u).2.2.2, scaleS]
+
 /-- scalar and equal-length vector operands act element-wise on the unchanged wavelength grid -/
 theorem scalar_vector_elementwise (op : ℚ → ℚ → ℚ) (s : Spectrum) (c : ℚ) (v : List ℚ) (hv : v.length = s.value.length) :
     (ufuncScalar op s c).wave = s.wave ∧ (ufuncScalar op s c).value = s.value.map (op · c) ∧
@@ -184,7 +243,7 @@ theorem unit_handover_partial (op : ℚ → ℚ → ℚ) (s1 s2 : USpec) (m : Sa
     ufuncU op s1 s2 m fill = ufuncU op s1 (toWave s1.wu s2) m fill ∧
     ∀ r, ufuncU op s1 s2 m fill = .ok r → r.wu = s1.wu ∧ r.vu = s1.vu := by
   constructor
-  · have h2 : (toWave s1.wu s2).wu = s1.wu := by cases hv : s2.vu <;> simp [toWave, hv]
+  · have h2 : (toWave s1.wu s2).wu = s1.wu := by cases hv : s2.vu <;> simp [toWave_eq, hv]
     by_cases h : s2.wu = s1.wu
     · have : toWave s1.wu s2 = s2 := by rw [← h]; exact toWave_self s2
       rw [this]
